@@ -204,6 +204,30 @@ def _run_scenario(sc, fault, env, res):
                     break
             it.close()
             after_close_checks(it)
+        elif kind == "from_data_reuse":
+            # data that has been finalized (its owning iterator ended, one way or another)
+            # is offered to a second iterator: to be refused, whoever would own it -- no
+            # frame is ever rendered with it
+            rd = subj._get_render_data_(iteration=True)
+            it = RenderIterator._from_render_data_(subj, rd, None, ExactPadding(), sc["loops"], sc["cache"], finalize=True)
+            for i in range(sc["steps"]):
+                try:
+                    next(it)
+                except StopIteration:
+                    break
+            it.close()
+            try:
+                it2 = RenderIterator._from_render_data_(subj, rd, None, ExactPadding(), 1, False, finalize=sc.get("reuse_owns", False))
+            except ValueError:
+                pass
+            else:
+                try:
+                    for _ in it2:
+                        pass
+                finally:
+                    it2.close()
+                errs.append("finalized render data was accepted by _from_render_data_(finalize=%r)" % sc.get("reuse_owns", False))
+            del rd
         elif kind == "two_iters":
             # two iterators alive at the same time, created in different ways and with
             # different ownership of their data; ended in either order.  What one of them
@@ -301,7 +325,7 @@ def _run_scenario(sc, fault, env, res):
 
 
 def gen_scenario(rnd):
-    kind = rnd.choice(["str", "render", "draw_still", "draw_anim", "draw_anim", "iter_dunder", "iter_full", "iter_close", "iter_drop", "iter_seek", "from_data_own", "from_data_keep", "iter_reentrant_close", "two_iters", "two_iters"])
+    kind = rnd.choice(["str", "render", "draw_still", "draw_anim", "draw_anim", "iter_dunder", "iter_full", "iter_close", "iter_drop", "iter_seek", "from_data_own", "from_data_keep", "from_data_reuse", "iter_reentrant_close", "two_iters", "two_iters"])
     sc = dict(kind=kind, size=[rnd.randint(1, 4), rnd.randint(1, 3)], loops=rnd.choice([1, 2, 3]), cache=rnd.choice([False, True, 2, 100]), steps=rnd.randint(0, 8), seeks=[rnd.randint(0, 5) for _ in range(4)])
     if kind in ("str", "render", "draw_still") and rnd.random() < 0.5:
         sc["n"] = 1
@@ -317,6 +341,8 @@ def gen_scenario(rnd):
         sc["size2"] = [rnd.randint(1, 4), rnd.randint(1, 3)]
     if rnd.random() < 0.25:
         sc["in_handler"] = True
+    if kind == "from_data_reuse":
+        sc["reuse_owns"] = rnd.random() < 0.5
     if kind == "two_iters":
         sc["modes"] = [rnd.choice(["keep", "own", "ctor", "draw"]) for _ in range(rnd.randint(2, 3))]
         sc["end_order"] = rnd.sample(range(3), 3)
